@@ -7,7 +7,9 @@ C13 line-protocol driver.  One case = one admin handler + one request:
                                        the real caddy.Load of that config starts; the free TCP port is written PORT
   hist <step> …                        a HISTORY of config loads (real caddy.Load each), step = <local>@<remote>, local = n | d | a0 | a1
                                        (default origins) | t0 | t1 (origins that exclude the address's own Host) | b (an address that
-                                       cannot be bound: the load must be rejected), remote = ~ | a2=<acl> | a3=<acl>; after each load
+                                       cannot be bound: the load must be rejected) | a0! … t1! d! (the config is REJECTED LATE: an app cannot
+                                       be provisioned), remote = ~ | a2=<acl> | a3=<acl> | x2=<acl> | x3=<acl> (an undecodable public
+                                       key follows: rejected in replaceRemoteAdminServer); after each load
                                        every admin address configured so far is probed over the network (32 HTTP requests / mutual TLS
                                        with the keys 0..3): L<id>:dn|ok|no|mix  R<id>:dn|<4 × s m p r>
   ip   <hex>                           netip.ParseAddr + IsUnspecified / IsLoopback of a host → n | u | l | o
@@ -305,10 +307,16 @@ def handleIp : List String → String
     | none => "bad-op"
   | _ => "bad-op"
 
-/-- one step of a `hist` line: `<local>@<remote>` -/
-def parseHistStep (s : String) : Option LoadCfg :=
+/-- one step of a `hist` line: `<local>@<remote>`; `<local>!` = the config is rejected while its
+    apps are provisioned, `x2=`/`x3=` = the access list ends in an entry with an undecodable key -/
+def parseHistStep (s : String) : Option Attempt :=
   match s.splitOn "@" with
-  | [l, r] =>
+  | [l0, r0] =>
+    let prov := l0.length > 1 && l0.endsWith "!" && l0 != "n!" && l0 != "b!"
+    let l := if prov then (l0.dropRight 1) else l0
+    let key := !prov && (r0.startsWith "x2=" || r0.startsWith "x3=")
+    let r := if key then "a" ++ r0.drop 1 else r0
+    let fail : Fail := if prov then .prov else if key then .key else .none
     let loc : Option LocalCfg :=
       if l == "n" then some .absent else if l == "d" then some .disabled else if l == "b" then some .blocked
       else if l == "a0" then some (.listen 0 false) else if l == "a1" then some (.listen 1 false)
@@ -316,13 +324,13 @@ def parseHistStep (s : String) : Option LoadCfg :=
     match loc with
     | none => none
     | some loc =>
-      if r == "~" then some ⟨loc, none⟩
+      if r == "~" then some ⟨⟨loc, none⟩, fail⟩
       else match r.splitOn "=" with
         | [a, acl] =>
           if (a != "a2" && a != "a3") || l == "n" || l == "b" then none
           else match parseAcl acl with
             | some (some acl) =>
-              if acl.all (fun e => e.keys.all (· < 4)) then some ⟨loc, some (if a == "a2" then 2 else 3, acl)⟩ else none
+              if acl.all (fun e => e.keys.all (· < 4)) then some ⟨⟨loc, some (if a == "a2" then 2 else 3, acl)⟩, fail⟩ else none
             | _ => none
         | _ => none
   | _ => none
@@ -343,9 +351,10 @@ def showLife (s : Life) (seen : List Nat × List Nat) : String :=
         | none => "dn")))
 
 /-- the answers after each prefix of the history -/
-def histAnswers : List LoadCfg → List LoadCfg → Life → List String
+def histAnswers : List LoadCfg → List Attempt → Life → List String
   | _, [], _ => []
-  | done, c :: rest, s => showLife (load s c) (histSeen (done ++ [c])) :: histAnswers (done ++ [c]) rest (load s c)
+  | done, a :: rest, s =>
+    showLife (attempt s a) (histSeen (done ++ [a.cfg])) :: histAnswers (done ++ [a.cfg]) rest (attempt s a)
 
 /-- `hist <step> …`: a history of config loads; after each load, for every admin address configured
     so far: is a server up there, and what does it answer the keys 0..3 -/
@@ -417,5 +426,7 @@ end CaddyModel.C13
 
 namespace CaddyModel.C13
 /-- counter-example lines replayed on the implementation on every run (see Witness.lean) -/
-def witnessLines : List String := []
+def witnessLines : List String :=
+  ["hist t0@~ a0!@~",          -- Witness.local_endpoint_of_running_config_full_fails (1): origins of a rejected config enforced
+   "hist a0@~ a1!@~"]          -- (2): the endpoint of a rejected config listens on an address the running config never named
 end CaddyModel.C13
